@@ -612,6 +612,7 @@ tun_setip(const char *ip, const char *other_ip, int netbits)
 	DWORD len;
 #else
 	const char *display_ip;
+	struct in_addr check;
 #ifndef LINUX
 	struct in_addr netip;
 #endif
@@ -624,7 +625,15 @@ tun_setip(const char *ip, const char *other_ip, int netbits)
 	netmask <<= (32 - netbits);
 	net.s_addr = htonl(netmask);
 
+#ifndef WINDOWS32
+	/* ip and other_ip may come from the peer (login reply) and are put
+	   into a shell command line below, so accept nothing but a plain
+	   dotted quad. inet_addr() also accepts text after whitespace. */
+	if (inet_pton(AF_INET, ip, &check) != 1 ||
+	    inet_pton(AF_INET, other_ip, &check) != 1) {
+#else
 	if (inet_addr(ip) == INADDR_NONE) {
+#endif
 		fprintf(stderr, "Invalid IP: %s!\n", ip);
 		return 1;
 	}
